@@ -256,6 +256,9 @@ func runC01(c *an.Ctx) {
 	c.Floor("C01-R15", 5)
 	sharedPoolInitSweep(c, "C01-R15", "dnssvc/internal/mainmw.filteringContext", "filter/internal.Request", "filter/internal.Response")
 	c01Writers(c)
+	// ---- R18: the bytes of a received datagram stay the session's own until the response was written (shared with C06-R2)
+	c.Floor("C01-R18", 2)
+	c06BufferLifetime(c, "C01-R18")
 	// ---- R13: every wire writer normalises, packs and writes the response it was given, once
 	c.Floor("C01-R13", 3)
 	c.Borrow("C01-R13", runC08, func(o an.Obligation) bool { return o.Rule == "C08-R1" })
